@@ -1570,7 +1570,52 @@ def w_compact(failure, tier):
             return dict(found=True, cmd='%s history <<< hex(json)' % BIN,
                         input='segment 1: a b c d e; segment 2: z0 z1 z2; deleted %s; then compact' % [o[1] for o in c['ops'] if o[0] == 'del'],
                         observed='live afterwards: %s; log %s' % (got, d.get('log')), expected='live afterwards: %s' % want)
-    return dict(found=False, note='compaction: %d histories with deletions at every position of a segment keep exactly the live documents' % n)
+    # and the answers: queries, filters (plain and nested) and aggregations give the same documents, stored fields and
+    # buckets before and after compaction (scores are not compared: segment statistics change)
+    kw = lambda nme: {"type": "keyword", "name": nme, "stored": True, "indexed": True, "fast": True, "nullable": True}
+    nm = lambda nme: {"type": "numeric", "name": nme, "i64": True, "fast": True, "stored": True, "nullable": True}
+    add = {"keyword_fields": [{"name": "tag", "stored": True, "indexed": True, "fast": True, "nullable": True}],
+           "numeric_fields": [{"name": "n", "i64": True, "fast": True, "stored": True, "nullable": True}, {"name": "x", "i64": False, "fast": True, "stored": True, "nullable": True}],
+           "nested_fields": [{"name": "c", "nullable": True, "fields": [kw("a"), nm("m"), {"type": "object", "name": "r", "nullable": True, "fields": [kw("u")]}]}]}
+    docs = []
+    for i in range(16):
+        d = {"_id": "d%02d" % i, "body": ("rust search " if i % 2 else "rust engine ") + ("fast" if i % 3 == 0 else "slow")}
+        if i % 4:
+            d["tag"] = ["t%d" % (i % 3)] + (["extra"] if i % 5 == 0 else [])
+        if i % 3:
+            d["n"] = i - 5
+        if i % 2:
+            d["x"] = [i * 0.5, i * 1.5] if i % 5 == 0 else i * 0.5
+        if i % 3 != 1:
+            d["c"] = [{"a": "u%d" % (i % 2), "m": i, "r": {"u": "z%d" % (i % 3)}}, {"a": "w", "m": -i}] if i % 2 else {"a": "solo", "m": i}
+        docs.append(d)
+    qs = ["rust", "engine fast", {"type": "bool", "must": [{"type": "term", "field": "body", "value": "rust"}], "must_not": [{"type": "term", "field": "body", "value": "slow"}]},
+          {"type": "phrase", "field": "body", "terms": ["rust", "search"]}, {"type": "match_all"}]
+    filters = [None, {"KeywordEq": {"field": "tag", "value": "t1"}}, {"I64Range": {"field": "n", "min": -2, "max": 6}},
+               {"Nested": {"path": "c", "filter": {"And": [{"KeywordEq": {"field": "c.a", "value": "u1"}}, {"I64Range": {"field": "c.m", "min": 0, "max": 100}}]}}},
+               {"Not": {"KeywordEq": {"field": "tag", "value": "extra"}}}]
+    reqs = []
+    for q in qs:
+        for f in filters:
+            r = dict(REQ_BASE, query=q, limit=100, return_stored=True, aggs={"t": {"type": "terms", "field": "tag", "size": 20}, "h": {"type": "histogram", "field": "n", "interval": 3.0}})
+            if f:
+                r["filter"] = f
+            reqs.append(r)
+    base = {"schema": None, "schema_add": add, "batches": [docs[:6], docs[6:11], docs[11:]], "deletes": [[], ["d02", "d07"], ["d12", "d03"]], "requests": reqs}
+    o1, e1 = drive_search(base)
+    o2, e2 = drive_search(dict(base, compact=True))
+    if o1 is None or o2 is None:
+        return dict(found=False, note='search driver failed: %s' % (e1 or e2))
+    m = 0
+    for r, a, b in zip(reqs, o1, o2):
+        m += 1
+        view = lambda o: (sorted((h['doc_id'], _json.dumps(h.get('fields'), sort_keys=True)) for h in o['ok']['hits']), _json.dumps(o['ok'].get('aggregations'), sort_keys=True)) if 'ok' in o else ('error', str(o)[:200])
+        va, vb = view(a), view(b)
+        if va != vb:
+            return dict(found=True, cmd='%s search <<< hex(json) (once as committed, once with "compact": true)' % BIN,
+                        input='16 documents in 3 segments, 4 deleted; query %s, filter %s, terms and histogram aggregations' % (_json.dumps(r['query']), _json.dumps(r.get('filter'))),
+                        observed='after compaction: %s' % str(vb)[:400], expected='%s (the answer before compaction)' % str(va)[:400])
+    return dict(found=False, note='compaction: %d histories with deletions at every position of a segment keep exactly the live documents; %d requests (queries x filters, with aggregations) answer the same before and after compaction' % (n, m))
 
 
 def w_stored_nested(failure, tier):
